@@ -102,12 +102,14 @@ let copyable v = (v = "C" || v = "T")
 let throwing v = (v = "T" || v = "U")
 
 (* static refusal of a step, identical on the three sides *)
-let refused variant (p : pop) (capof : int -> int option) : bool =
+let refused variant (p : pop) : bool =
   (needs_copy p.o && not (copyable variant)) || (p.plan <> None && not (throwing variant))
   || List.exists (fun i -> i >= npool) (writes p.o @ uses p.o)
   || list_len p.o > 5
   || (match p.o with OGet (_, k) -> n2i k > 5 | _ -> false)
-  || (match position p.o with Some (i, pos) -> (match capof i with Some c -> pos > c | None -> false) | None -> false)
+(* checked after the moved-from rule, so that the capacity of a moved-from object is never consulted *)
+let bad_position (p : pop) (capof : int -> int option) : bool =
+  match position p.o with Some (i, pos) -> (match capof i with Some c -> pos > c | None -> false) | None -> false
 
 let model (ws : string list) : string =
   match ws with
@@ -121,8 +123,9 @@ let model (ws : string list) : string =
         let p = parse_op w in
         if n > 0 then Buffer.add_char out ' ';
         let capof i = match pget !pool (i2n i) with Some st -> Some (n2i st.cap) | None -> None in
-        if refused variant p capof then Buffer.add_string out "NA"
+        if refused variant p then Buffer.add_string out "NA"
         else if List.exists (fun i -> mf.(i)) (uses p.o) then Buffer.add_string out "K"
+        else if bad_position p capof then Buffer.add_string out "NA"
         else begin
           let (pool', r) = pstep (match p.plan with Some k -> Some (i2n k) | None -> None) p.o !pool in
           pool := pool';
@@ -140,7 +143,7 @@ let model (ws : string list) : string =
                 | Some st -> if mf.(i) then (if valid_fv st then "MF" else "MF!") else render_fv st))
               (List.sort_uniq compare (writes p.o))
         end) ops;
-      Buffer.contents out
+      if Buffer.length out = 0 then "-" else Buffer.contents out
     with Failure _ | Not_found | Invalid_argument _ -> "BADCASE")
   | _ -> "BADCASE"
 
@@ -168,6 +171,9 @@ let oracle (ws : string list) (obs : string) : bool =
   match ws with
   | variant :: ops when List.mem variant ["C"; "M"; "T"; "U"] ->
     let toks = words obs in
+    (* the plug-in's normalize() prefixes a summary word k=...; it carries no information of its own *)
+    let toks = match toks with t :: r when String.length t >= 2 && String.sub t 0 2 = "k=" -> r | _ -> toks in
+    if ops = [] then toks = ["-"] else
     if List.length toks <> List.length ops then false else begin
       let pool = ref (repeat None (i2n npool) : apool) in
       let mf = Array.make npool false in
@@ -175,8 +181,9 @@ let oracle (ws : string list) (obs : string) : bool =
       List.for_all2 (fun w tok ->
         let p = parse_op w in
         let capof i = match aget !pool (i2n i) with Some (c, _) -> Some (n2i c) | None -> None in
-        if refused variant p capof then tok = "NA"
+        if refused variant p then tok = "NA"
         else if List.exists (fun i -> mf.(i)) (uses p.o) then tok = "K"
+        else if bad_position p capof then tok = "NA"
         else begin
           let before = !pool in
           let (pool', r) = sstep p.o before in
